@@ -58,6 +58,18 @@ CLAIMED: dict[str, tuple[str, str, str, str, str]] = {
         "frames safely under the limit are never rejected.",
         "Trusted: TLC; 'safely under the limit' as defined in the evidence assumptions. Bounds: limits 4-64, reads <= 16.",
     ),
+    "C01": (
+        "model_checking",
+        "TLA+ spec StreamAbs (content-free framing law) model-checked by TLC; every execution of the real serializers/protocols/consumers "
+        "(all shipped incremental serializers, base-class subclasses, wrappers, composites, converters; both receive paths; buffer size hints) "
+        "recorded as a trace and validated by TLC against StreamAbsTrace; separator scanners additionally byte-exact via SepScan",
+        "DESIGN.md section 3 (C01)",
+        "The specification decides order, multiplicity, chunking-independence (a frame is delivered as soon as, and only when, its last byte "
+        "was fed) and emptiness at the end; TLC validates thousands of recorded executions per run, covering every single cut, cuts around every "
+        "frame boundary, byte-by-byte and all compositions for short streams.",
+        "Trusted: TLC; Python equality between delivered and sent packet (computed by the harness, asserted by the spec). cbor/msgpack are not "
+        "importable offline and therefore not exercised.",
+    ),
 }
 
 NOT_YET = "check not built yet in this revision of /verif (planned: see DESIGN.md section 0); not claimed until its check exists"
